@@ -298,6 +298,11 @@ def build_finite(tier, seed):
             [("greater_or_equal", (f"{ty}::NEG_INFINITY", -__import__("math").inf)), ("finite", None)],
             [("finite", None), ("less_or_equal", (f"{ty}::INFINITY", __import__("math").inf))],
             [("finite", None), ("predicate", "*x != 0.5")],
+            # zero bounds, both signs, literal and constant: -0.0 and 0.0 are the same number for every comparison the type exposes
+            [("finite", None), ("greater_or_equal", ("0.0", Fraction(0)))],
+            [("greater_or_equal", ("-0.0", "NEGZERO")), ("finite", None)],
+            [("finite", None), ("less_or_equal", ("0.0", Fraction(0))), ("greater_or_equal", ("-64.0", Fraction(-64)))],
+            [("finite", None), ("greater_or_equal", ("0.0", Fraction(0))), ("less_or_equal", ("64.0", Fraction(64)))],
         ]
         for ci, c in enumerate(combos):
             for with_san in (False, True):
@@ -584,4 +589,21 @@ def build_homonyms(tier, seed):
             if rnd == 2:
                 d.vals.insert(0, Vld("finite"))
             d.derives = ["Debug", "Clone", "Copy", "PartialEq", "TryFrom", "FromStr", "Display", "AsRef"]
+    # the same name for integer newtypes with *different small ranges* deriving Arbitrary (a macro-side memo keyed by the type name would hand the
+    # second declaration the first one's range)
+    for (l_, h_, spell) in ((1, 10, "lit"), (1, 100, "lit"), (-5, 5, "const"), (0, 3, "lit")):
+        d = b.new(inner_int("i16"), tags=["C01", "C09", "C14"], type_name="Level")
+        d.vals.append(int_bound("greater_or_equal", "i16", l_, spell, d, "LO"))
+        d.vals.append(int_bound("less_or_equal", "i16", h_, spell, d, "HI"))
+        d.derives = ["Debug", "Clone", "PartialEq", "TryFrom", "Arbitrary"]
+    for (mn, mx) in ((1, 3), (2, 12), (0, 5)):
+        d = b.new(inner_string(), tags=["C01", "C09"], type_name="Level")
+        d.vals.append(Vld("len_char_min", str(mn), mn))
+        d.vals.append(Vld("len_char_max", str(mx), mx))
+        d.derives = ["Debug", "Clone", "PartialEq", "TryFrom", "Arbitrary"]
+    for (l_, h_) in (("0.0", "1.0"), ("-5.0", "5.0"), ("10.0", "20.0")):
+        d = b.new(inner_float("f64"), tags=["C01", "C09"], type_name="Level")
+        d.vals.append(float_bound("greater_or_equal", "f64", l_, None, Fraction(l_), d))
+        d.vals.append(float_bound("less_or_equal", "f64", h_, None, Fraction(h_), d))
+        d.derives = ["Debug", "Clone", "PartialEq", "TryFrom", "Arbitrary"]
     return b.decls
